@@ -681,8 +681,8 @@ func run(c *core.Ctx) {
 	c.Rule("phase A: every reduced gramenum grammar of the scope x 5 input configurations x {plain, last terminal = error} with every atom, its complement " +
 		"and 2 compounds per atom; phase B: 3 showcase grammars x all expressions with <=2 literals (atom or ~atom) x {plain, complemented} and all " +
 		"3-literal expressions over 8 literals; phase C: systems of 1..3 named sets whose definitions range over 20..40 templates mentioning each other; " +
-		"phase D: set(expr) inside a rule for every literal, also self-dependent. 20 %generate per text. nontrivial = named-set evaluations (one expression on one grammar text, " +
-		"all distinct) whose value is neither empty nor the whole terminal universe")
+		"phase D: set(expr) inside a rule for every literal, also self-dependent. 20 %generate per text. evaluations = grammar texts (all distinct, each with ~20 named sets); nontrivial = texts with at least one " +
+		"named set whose value is neither empty nor the whole terminal universe (the per-expression count is distinct_expression_value_pairs)")
 	c.Assume("the complement universe is every terminal of the grammar: eoi, invalid_token, error and all lexer tokens (sides with syntax/set.go; no documentation)")
 	c.Assume("follow/precede never contain eoi; `any` of a nonterminal = terminals occurring in the rules reachable from it; an empty set(...) inside a rule derives the empty string (sides with the implementation)")
 	c.Assume("%assert directives are parsed and resolved but never enforced by the compiler (compiler/syntax.go collects them, nothing reads them): only their non-interference is checked")
@@ -707,7 +707,9 @@ func run(c *core.Ctx) {
 			}
 			for _, d := range v.nonEmpty {
 				distinct[d] = true
-				nNontriv++
+			}
+			if len(v.nonEmpty) > 0 {
+				nNontriv++ // one per (distinct) grammar text with at least one non-trivial set value
 			}
 			mu.Unlock()
 		})
